@@ -111,6 +111,13 @@ where
         let data = self.data.take()?;
         let mut last = false;
 
+        // Every slot (including the terminating one) must be aligned for the whole vector.
+        if data.bytes().as_ptr().align_offset(FlexVec::<T, L>::ALIGN) != 0 {
+            return Some(Err(Error {
+                kind: ErrorKind::BadAlign,
+                pos: self.pos,
+            }));
+        }
         let next_offset = match L::from_bytes(data.bytes()) {
             Ok(x) => x.to_usize().unwrap(),
             Err(e) => return Some(Err(e.offset(self.pos))),
